@@ -91,6 +91,9 @@ structure Ctx where
   takeValuedNamed : Bool := true
   /-- before the repair of F9a every skipped requirement was recorded in the input set -/
   skipRecordsInput : Bool := false
+  /-- when the recorded oracle is exhausted, choose paths with the greedy legal pop order
+      (used to run the model on its own: enumeration, crashed scenarios) -/
+  auto : Bool := false
 
 def CallSt.get (s : CallSt) (v : Vtx) : Option Val := mapGet s.store v
 
@@ -224,6 +227,33 @@ def walkPaths (c : Ctx) (rec : Vtx → CallSt → Except RErr ArgMap × CallSt) 
       | some x, some lastV => walkPaths c rec rest (mapSet am lastV x) w.s
       | _, _ => (.error (.panic .finalValue), w.s)
 
+/-! ### the path the real code chooses: Dijkstra on a re-weighted copy -/
+
+/-- for a named requirement, every edge into a same-named value vertex is re-weighted to
+`weightMatchingName` (on a copy) -/
+def discount (g : AGraph Vtx) (current : Vtx) : AGraph Vtx :=
+  match current with
+  | .value n _ _ =>
+    (g.verts.filter (fun v => v.isValue && v.name == n)).foldl (fun g raw =>
+      (g.ins raw).foldl (fun g src => g.addEdge src raw Generated.weightMatchingName) g) g
+  | _ => g
+
+/-- `currentG.Reverse().Dijkstra(root)` replaying `pops`, then `EdgeToPath(current)` -/
+def choosePath (g : AGraph Vtx) (current : Vtx) (pops : List Vtx) : List Vtx :=
+  Dijkstra.edgeToPath (Dijkstra.run (discount g current).reverse Vtx.root pops).prev (pops.length + 1) current
+
+def legalChoice (g : AGraph Vtx) (current : Vtx) (pops : List Vtx) : Bool :=
+  Dijkstra.legalFrom (discount g current).reverse (Dijkstra.init Vtx.root) pops &&
+  decide (pops.Nodup) && (discount g current).verts.all (fun v => decide (v ∈ pops))
+
+/-- the oracle item the model produces on its own: requirements in representation order, each
+path chosen by Dijkstra with the greedy (first minimum) pop order -/
+def autoItem (g : AGraph Vtx) (target : Vtx) (missing : List Vtx) : OrcItem :=
+  { target := target, missing := missing,
+    paths := missing.map (fun cur =>
+      choosePath g cur (Dijkstra.greedyPops (discount g cur).reverse (discount g cur).verts.length
+        (Dijkstra.init Vtx.root))) }
+
 /-! ### reachTarget -/
 
 /-- requirement kept "as is": a typed argument that already holds a value (and, after the repair
@@ -281,9 +311,11 @@ def reach (c : Ctx) (redefine : Bool) : Nat → List Vtx → Vtx → CallSt → 
     let am0 : ArgMap := skipped.filterMap (fun v => if v == Vtx.root then none else (s.get v).map (fun x => (v, x)))
     let s := if c.skipRecordsInput then skipped.foldl CallSt.addInput s else s
     -- every `reachTarget` invocation consumes one oracle item (it logs its target first)
-    match s.orc with
-    | [] => (.error (.badOracle "exhausted"), s)
-    | item :: orcRest =>
+    match (match s.orc with
+        | item :: rest => some (item, rest)
+        | [] => if c.auto then some (autoItem c.g target missingM, []) else none) with
+    | none => (.error (.badOracle "exhausted"), s)
+    | some (item, orcRest) =>
       let s := { s with orc := orcRest }
       if item.target ≠ target then (.error (.badOracle "target"), s)
       else if !sameMembers item.missing missingM then (.error (.badOracle "missing"), s)
@@ -297,25 +329,6 @@ def reach (c : Ctx) (redefine : Bool) : Nat → List Vtx → Vtx → CallSt → 
           { s := s, unsat := [] }
         if !ps.unsat.isEmpty then (.error (.unsat ps.unsat), ps.s)
         else walkPaths c (fun v st => reach c redefine n reaching' v st) item.paths am0 ps.s
-
-/-! ### the path the real code chooses: Dijkstra on a re-weighted copy -/
-
-/-- for a named requirement, every edge into a same-named value vertex is re-weighted to
-`weightMatchingName` (on a copy) -/
-def discount (g : AGraph Vtx) (current : Vtx) : AGraph Vtx :=
-  match current with
-  | .value n _ _ =>
-    (g.verts.filter (fun v => v.isValue && v.name == n)).foldl (fun g raw =>
-      (g.ins raw).foldl (fun g src => g.addEdge src raw Generated.weightMatchingName) g) g
-  | _ => g
-
-/-- `currentG.Reverse().Dijkstra(root)` replaying `pops`, then `EdgeToPath(current)` -/
-def choosePath (g : AGraph Vtx) (current : Vtx) (pops : List Vtx) : List Vtx :=
-  Dijkstra.edgeToPath (Dijkstra.run (discount g current).reverse Vtx.root pops).prev (pops.length + 1) current
-
-def legalChoice (g : AGraph Vtx) (current : Vtx) (pops : List Vtx) : Bool :=
-  Dijkstra.legalFrom (discount g current).reverse (Dijkstra.init Vtx.root) pops &&
-  decide (pops.Nodup) && (discount g current).verts.all (fun v => decide (v ∈ pops))
 
 /-! ### Call -/
 
